@@ -29,7 +29,16 @@ var families = map[string]runner{}
 
 var onePerProcess = map[string]bool{"pipe": true}
 
-const callDeadline = 20 * time.Second
+// callDeadline bounds one call into gofasta (and one vector in a worker).  A vector that exceeds it is re-run alone with
+// ten times the time before it is reported as a hang (deadlineScale): a machine shared with other work can be slow
+// without anything hanging, and a verdict may not depend on that.
+var deadlineScale = func() time.Duration {
+	if n, err := strconv.Atoi(os.Getenv("VERIF_DEADLINE_SCALE")); err == nil && n > 1 {
+		return time.Duration(n)
+	}
+	return 1
+}()
+var callDeadline = 20 * time.Second * deadlineScale
 
 func cmdRun(args []string) {
 	if len(args) < 3 {
@@ -150,6 +159,23 @@ func superviseChunk(fam, in string, lo, hi int, vecs []map[string]interface{}) [
 				lines = append(lines, b)
 			}
 			next++
+		}
+	}
+	// confirmation of timeouts: a vector that did not finish in time is run once more, alone, with ten times the deadline
+	// (at most 8 per chunk); only if that run times out too does the observation stand
+	if deadlineScale == 1 {
+		confirmed := 0
+		for k, b := range lines {
+			if confirmed >= 8 || !bytes.Contains(b, []byte(`"timeout":true`)) {
+				continue
+			}
+			confirmed++
+			os.Setenv("VERIF_DEADLINE_SCALE", "10")
+			nb := runAlone(fam, in, lo+k)
+			os.Unsetenv("VERIF_DEADLINE_SCALE")
+			if nb != nil {
+				lines[k] = nb
+			}
 		}
 	}
 	return lines
